@@ -485,7 +485,7 @@ func (in *Interp) visit(fr *frame, instr ssa.Instruction) cont {
 		}
 		fr.env[x] = SliceV{E: e}
 	case *ssa.MakeMap:
-		fr.env[x] = &MapV{kv: map[string]*mapEntry{}}
+		fr.env[x] = newMap()
 	case *ssa.Range:
 		fr.env[x] = in.rangeStart(fr, fr.get(x.X))
 	case *ssa.Next:
@@ -1348,83 +1348,6 @@ func (in *Interp) fieldAddr(fr *frame, pv Value, field int) Value {
 
 // ---------- maps ----------
 
-func (in *Interp) mapKey(v Value) (string, bool) {
-	switch x := v.(type) {
-	case *Term:
-		if !x.IsConst() {
-			return "", false
-		}
-		return fmt.Sprintf("i%d:%s", x.W, x.BigVal().Text(16)), true
-	case StrV:
-		if x.Sym != nil {
-			return "", false
-		}
-		return "s:" + x.S, true
-	case PtrV:
-		if x.Sym != nil {
-			return "", false
-		}
-		return fmt.Sprintf("p:%p", x.P), true
-	case IfaceV:
-		if x.T == nil {
-			return "nil", true
-		}
-		k, ok := in.mapKey(x.V)
-		return "I(" + x.T.String() + ")" + k, ok
-	case ArrayV:
-		var sb strings.Builder
-		sb.WriteString("[")
-		for _, e := range x {
-			k, ok := in.mapKey(e)
-			if !ok {
-				return "", false
-			}
-			sb.WriteString(k)
-			sb.WriteString(",")
-		}
-		return sb.String() + "]", true
-	case StructV:
-		var sb strings.Builder
-		sb.WriteString("{")
-		for _, e := range x {
-			k, ok := in.mapKey(e)
-			if !ok {
-				return "", false
-			}
-			sb.WriteString(k)
-			sb.WriteString(",")
-		}
-		return sb.String() + "}", true
-	}
-	return "", false
-}
-
-func (in *Interp) mapSet(fr *frame, m *MapV, k, v Value) {
-	ks, ok := in.mapKey(k)
-	if !ok {
-		in.notEncodable("map update with a symbolic or unsupported key (%T) in %s", k, fr.fn)
-		return
-	}
-	if e, ok := m.kv[ks]; ok && !e.dead {
-		e.v = v
-		return
-	}
-	m.kv[ks] = &mapEntry{k: k, v: v}
-	m.keys = append(m.keys, ks)
-}
-
-func (m *MapV) liveKeys() []string {
-	var out []string
-	seen := map[string]bool{}
-	for _, k := range m.keys {
-		if e, ok := m.kv[k]; ok && !e.dead && !seen[k] {
-			out = append(out, k)
-			seen[k] = true
-		}
-	}
-	return out
-}
-
 func (in *Interp) lookup(fr *frame, x *ssa.Lookup) Value {
 	base := fr.get(x.X)
 	iv := fr.get(x.Index)
@@ -1439,11 +1362,10 @@ func (in *Interp) lookup(fr *frame, x *ssa.Lookup) Value {
 		var val Value
 		found := false
 		if b != nil {
-			ks, ok := in.mapKey(iv)
-			if !ok {
-				return in.notEncodable("map lookup with a symbolic or unsupported key (%T) in %s", iv, fr.fn)
+			if p, ok := iv.(Poison); ok {
+				return in.usePoison(p)
 			}
-			if e, ok := b.kv[ks]; ok && !e.dead {
+			if e := in.mapFind(fr, b, iv); e != nil {
 				val, found = copyVal(e.v), true
 			}
 		}
@@ -1465,7 +1387,7 @@ func (in *Interp) rangeStart(fr *frame, v Value) Value {
 	case *MapV:
 		it := &rangeIter{isMap: true, m: x}
 		if x != nil {
-			it.keys = x.liveKeys()
+			it.ents = x.live()
 		}
 		return it
 	case StrV:
@@ -1483,10 +1405,10 @@ func (in *Interp) rangeNext(fr *frame, x *ssa.Next, itv Value) Value {
 	it := itv.(*rangeIter)
 	P := in.P
 	if it.isMap {
-		for it.pos < len(it.keys) {
-			k := it.keys[it.pos]
+		for it.pos < len(it.ents) {
+			e := it.ents[it.pos]
 			it.pos++
-			if e, ok := it.m.kv[k]; ok && !e.dead {
+			if !e.dead {
 				return TupleV{P.True, e.k, copyVal(e.v)}
 			}
 		}
